@@ -774,7 +774,7 @@ func (multi *MultiEpoch) processSlotTransactions(
 			}
 		}
 
-		if !gsfaReadersLoaded { // Only needed if gsfaReaders not loaded, otherwise handled in the main branch
+		if !gsfaReadersLoaded && len(filter.AccountInclude) > 0 { // Only needed if gsfaReaders not loaded, otherwise handled in the main branch; an empty list does not constrain
 			hasOne := false
 			for _, acc := range filter.AccountInclude {
 				pkey := solana.MustPublicKeyFromBase58(acc)
